@@ -17,11 +17,13 @@ from .predutil import PredictWorld, eq_rec, ge_rec, shapes, std_replay
 PROP = "C12"
 
 
-def unit(model, sizes):
+def unit(model, sizes, generic=False):
+    """generic: sizes = (1,)*n and every team has a symbolic number of members (the listed member is
+    the arbitrary one, the aggregates are symbols): the same obligations for teams of every size"""
     recs = []
     n = len(sizes)
-    shape = f"sizes={sizes}"
-    W = PredictWorld(model, sizes)
+    shape = f"sizes={sizes}" if not generic else f"n={len(sizes)},any-team-size"
+    W = PredictWorld(model, sizes, generic=generic)
     rpw = std_replay("c12_closed", model, sizes, op="predict_win")
     rpd = std_replay("c12_closed", model, sizes, op="predict_draw")
     rpr = std_replay("c12_closed", model, sizes, op="predict_rank")
@@ -91,13 +93,13 @@ def unit(model, sizes):
         recs.append(driver.rec(f"C12/{model}/{op}/closed-form-on-a-second-instance@{shape}", "discharged" if ok else "refuted", "field", 0,
                                fn=fn, shape=shape, mode="R", replay=None if ok else rp2))
     from .predutil import history_records
-    if n <= 3:
+    if n <= 3 and not generic:
         recs += history_records("C12", W, model, sizes, ("predict_win", "predict_draw", "predict_rank"))
     return recs
 
 
 def units(tier):
-    return [("unit", (m, s)) for m in extract.MODELS for s in shapes(tier, nmax=4 if tier == "quick" else 6)]
+    return [("unit", (m, s)) for m in extract.MODELS for s in shapes(tier, nmax=4 if tier == "quick" else 6)] + [("unit", (m, (1,) * n, True)) for m in extract.MODELS for n in range(2, (4 if tier == "quick" else 6) + 1)]
 
 
 def main(tier, seed):
@@ -109,6 +111,7 @@ def main(tier, seed):
         PROP, tier, seed, "other", records, errors, walls, t0,
         functions=fns,
         assumptions=[
+            __import__("pyvc.props.anysize", fromlist=["A_SUM"]).A_SUM,
             "A-fp: exact equality over the reals with the documented formula; the property's '1e-9 absolute against a high-precision evaluation' is not decided",
             "phi_major / phi_major_inverse enter as Phi / PhiInv (their bodies are C17's business); A-Phi reflection Phi(-x) = 1 - Phi(x) is used by the normaliser",
             "the numeric constants sqrt(N), (1+1/N)/2, n(n-1)/2 are the doubles both the code and the documented formula evaluate to",
@@ -118,5 +121,5 @@ def main(tier, seed):
         ],
         explanation=("The real predict_win, predict_draw and predict_rank of each model (real _check_teams, _calculate_team_ratings, itertools.permutations / zip_longest grouping run natively) are executed on symbolic teams with phi_major and phi_major_inverse replaced by their contracts; "
                      "every returned probability term is proved identical as an exact normal form to the property's closed form (two-team and n-team win, margin-shifted rank probabilities on every path of the ranking, draw as the ordered-pair average of the band probability)."),
-        shapes=[str(s) for s in shapes(tier, nmax=4 if tier == "quick" else 6)],
+        shapes=[str(s) for s in shapes(tier, nmax=4 if tier == "quick" else 6)] + [f"n=2..{4 if tier == 'quick' else 6} teams of every size (symbolic member counts)"],
     )
